@@ -300,6 +300,143 @@ def oracle_(I, specs, rng, max_triples):
 
 
 # ---------------------------------------------------------------------------------------------------------------------
+# Histories on one kind object: generated setters/unsetters, hash, ==, clone, union/intersection, <= interleaved.
+def class_of(I):
+    out = {}
+    for c, fl in I.pk.FEATURES.items():
+        for f in fl:
+            out.setdefault(f, c)
+    return out
+
+
+def run_history(I, rng, hot, deprecated, n_ops):
+    """Returns (record, oracle violations).  Every observation is also made on a FRESH kind built from the object's
+    current feature set (property text: equal kinds hash equally and answer <= alike, whatever their history)."""
+    L = I.latest
+    cls = class_of(I)
+
+    def rand_feats(n):
+        out = set()
+        for _ in range(n):
+            out.add(rng.choice(hot) if rng.random() < 0.7 else rng.randrange(I.n_all))
+        return sorted(out)
+
+    while True:
+        ver = rng.choice([None, None, 1, 2, L, L])
+        init = (rand_feats(rng.randint(0, 4)), ver)
+        k = I.try_make(init)
+        if k is not None:
+            break
+    while True:
+        over = ver if rng.random() < 0.7 else rng.choice([None, 1, 2, L])
+        base = set(init[0]) if rng.random() < 0.5 else set()
+        other = (sorted(base | set(rand_feats(rng.randint(0, 4)))), over)
+        if I.try_make(other) is not None:
+            break
+    ops, obs, bad = [], [], []
+    touched = list(init[0])
+
+    def cur():
+        return (I.ids(k._features), k._version)
+
+    def rk(f):
+        return observe_rk(I, f)
+
+    for step in range(n_ops):
+        r = rng.random()
+        if r < 0.3:
+            f = rng.choice(deprecated) if rng.random() < 0.25 else (rng.choice(hot) if rng.random() < 0.6 else rng.randrange(I.n_all))
+            name = I.names[f]
+            ops.append(("HSet", f))
+            try:
+                getattr(k, "set_" + cls[name].lower())(name)
+                ok = True
+                touched.append(f)
+            except AssertionError:
+                ok = False
+            obs.append(("OSet", ok, cur()[0]))
+        elif r < 0.55:
+            f = rng.choice(touched) if touched and rng.random() < 0.8 else rng.randrange(I.n_all)
+            name = I.names[f]
+            ops.append(("HUnset", f))
+            getattr(k, "unset_" + cls[name].lower())(name)
+            obs.append(("OUnset", cur()[0]))
+        elif r < 0.8:
+            ops.append(("HObs",))
+            fresh = I.make(cur())
+            h = k.__hash__()
+            e, he = (k == fresh), (hash(k) == hash(fresh))
+            c = k.clone()
+            cok = (c == k) and (hash(c) == hash(k))
+            eo = (k == I.make(other))
+            un = rk(lambda: k.union(I.make(other)))
+            it = rk(lambda: k.intersection(I.make(other)))
+            obs.append(("OObs", cur()[0], h, e, he, cok, eo, un, it))
+            if e and not he:
+                bad.append(("history:eq-implies-same-hash", step))
+            if not e:
+                bad.append(("history:object-differs-from-fresh-kind-with-same-features", step))
+            fu = rk(lambda: I.make(cur()).union(I.make(other)))
+            if fu != un:
+                bad.append(("history:union-differs-from-fresh", step))
+        elif r < 0.9:
+            which = "HLe" if rng.random() < 0.5 else "HGe"
+            ops.append((which,))
+            before = cur()
+            try:
+                ans = bool(k <= I.make(other)) if which == "HLe" else bool(I.make(other) <= k)
+            except KeyError:
+                ans = None
+            try:
+                fa = bool(I.make(before) <= I.make(other)) if which == "HLe" else bool(I.make(other) <= I.make(before))
+            except KeyError:
+                fa = None
+            if fa != ans:
+                bad.append(("history:le-differs-from-fresh", step))
+            obs.append(("OLe", ans, cur()[0]))
+        else:
+            ops.append(("HLeFresh",))
+            try:
+                r1 = bool(k <= I.make(cur()))
+            except KeyError:
+                r1 = None
+            try:
+                r2 = bool(I.make(cur()) <= k)
+            except KeyError:
+                r2 = None
+            if r1 is not True or r2 is not True:
+                bad.append(("history:le-with-fresh-kind-of-same-features", step))
+            obs.append(("OLeFresh", r1, r2, cur()[0]))
+    used = sorted(set(init[0]) | set(other[0]) | set(o[1] for o in ops if o[0] == "HSet"))   # a superset of everything ever stored
+    rec = {"h": [(i, hash(I.names[i])) for i in used], "init": init, "other": other, "ops": ops, "obs": obs}
+    return rec, bad
+
+
+def g_optb(x):
+    return "None" if x is None else "(Some %s)" % gbool(x)
+
+
+def ser_hcase(c):
+    gops = []
+    for o in c["ops"]:
+        gops.append("%s %s" % (o[0], gn(o[1])) if len(o) > 1 else o[0])
+    gobs = []
+    for b in c["obs"]:
+        if b[0] == "OSet":
+            gobs.append("OSet %s %s" % (gbool(b[1]), gset(b[2])))
+        elif b[0] == "OUnset":
+            gobs.append("OUnset %s" % gset(b[1]))
+        elif b[0] == "OObs":
+            gobs.append("OObs %s %s %s %s %s %s %s %s" % (gset(b[1]), gz(b[2]), gbool(b[3]), gbool(b[4]), gbool(b[5]), gbool(b[6]), g_rk(b[7]), g_rk(b[8])))
+        elif b[0] == "OLe":
+            gobs.append("OLe %s %s" % (g_optb(b[1]), gset(b[2])))
+        else:
+            gobs.append("OLeFresh %s %s %s" % (g_optb(b[1]), g_optb(b[2]), gset(b[3])))
+    return "{| hc_h := %s; hc_init := %s; hc_other := %s; hc_ops := %s; hc_obs := %s |}" % (
+        glist([gpair(gn(i), gz(h)) for i, h in c["h"]]), gkind(c["init"]), gkind(c["other"]), glist(gops), glist(gobs))
+
+
+# ---------------------------------------------------------------------------------------------------------------------
 def run(ctx):
     tr_ok = run_translator(ctx, "gen_kind.py")
     ok_proofs = ctx.check_props(extra=["theories/Corr/Corr_C33.v"])
@@ -388,6 +525,38 @@ def run(ctx):
     bad = ctx.coq_failing(cases[:n_ex], "ok", imports=IMPORTS, shard=max(1, (n_ex + 1) // 2))
     bad += [n_ex + i for i in ctx.coq_failing(cases[n_ex:], "ok", imports=IMPORTS, shard=max(1, (len(cases) - n_ex + 1) // 2))]
 
+    # ---- histories on one object (set_/unset_ of every class, hash, ==, clone, union/intersection, <= interleaved)
+    n_hist = 80 if ctx.quick else 1200
+    hraw, hbad_oracle = [], []
+    for _ in range(n_hist):
+        rec, viol = run_history(I, rng, hot, deprecated, rng.randint(6, 18 if ctx.quick else 40))
+        hraw.append(rec)
+        for law, step in viol:
+            hbad_oracle.append((law, step, rec))
+    hcases = [ser_hcase(c) for c in hraw]
+    hbad = ctx.coq_failing(hcases, "hok", imports=IMPORTS, shard=max(1, (len(hcases) + 1) // 2))
+    seen_laws = set()
+    for law, step, rec in hbad_oracle:
+        if law in seen_laws:
+            continue
+        seen_laws.add(law)
+        ctx.fail("oracle", "history on one kind object: '%s' at step %d (the object is compared with a fresh kind built from its current features)" % (law, step),
+                 ["c33", "history", "law:" + law],
+                 {"law": law, "step": step, "history": {"init": ([I.names[i] for i in rec["init"][0]], rec["init"][1]),
+                                                         "ops": [(o[0], I.names[o[1]]) if len(o) > 1 else o[0] for o in rec["ops"]],
+                                                         "obs": rec["obs"]},
+                  "n_histories_with_this_law": sum(1 for l, _, _ in hbad_oracle if l == law), "theorem_or_corr": "oracle:C33:" + law}, True)
+    for i in hbad[:3]:
+        rec = hraw[i]
+        at = ctx.coq_show("hdiag c", imports=IMPORTS, preamble="Definition c := %s.\n" % hcases[i])
+        viol = [l for l, _, r in hbad_oracle if r is rec]
+        ctx.fail("corr", "history on one kind object: implementation and model disagree first at step %s" % at[:40], ["c33", "history"],
+                 {"first_differing_step": at, "history": {"init": ([I.names[i] for i in rec["init"][0]], rec["init"][1]),
+                                                          "other": ([I.names[i] for i in rec["other"][0]], rec["other"][1]),
+                                                          "ops": [(o[0], I.names[o[1]]) if len(o) > 1 else o[0] for o in rec["ops"]],
+                                                          "obs": rec["obs"]},
+                  "oracle_violations": viol, "theorem_or_corr": "corr:C33:history"}, bool(viol))
+
     for what, sa, sb, ex in I.unexpected[:20]:
         within = all(isinstance(x, tuple) and (x[1] is None or 1 <= x[1] <= L) for x in (sa, sb) if isinstance(x, tuple))
         ctx.fail("impl-exception", "%s raised %s on constructible kinds %s, %s" % (what, ex, sa, sb), ["c33", "exception", what],
@@ -467,7 +636,7 @@ def run(ctx):
                     stats["le_calls_that_stripped_an_operand"] += (o["le"][1] != s[0] or o["le"][2] != t[0])
     sample = [c for k, c in raw if k == "random"][0]
     ctx.finish({
-        "evaluations": len(cases) + 1,
+        "evaluations": len(cases) + 1 + len(hcases),
         "pair_evaluations": pair_evals,
         "distinct_nontrivial": len(distinct),
         "rule": "distinct = distinct ordered pairs of different, non-empty, constructible kinds (feature set, declared version) on which "
@@ -479,6 +648,10 @@ def run(ctx):
         "samples": [{"rows": [([I.names[i] for i in s[0]], s[1]) for s in sample["rows"]], "robs": sample["robs"],
                      "pair_0_1": sample["pairs"][0][1] if len(sample["rows"]) > 1 else None}],
         "distribution": stats,
+        "histories": {"n": n_hist, "steps": sum(len(c["ops"]) for c in hraw),
+                      "ops": {k: sum(1 for c in hraw for o in c["ops"] if o[0] == k) for k in ("HSet", "HUnset", "HObs", "HLe", "HGe", "HLeFresh")},
+                      "set_rejected_by_version_assertion": sum(1 for c in hraw for b in c["obs"] if b[0] == "OSet" and not b[1]),
+                      "observations_after_an_unset": sum(1 for c in hraw for j, o in enumerate(c["ops"]) if o[0] == "HObs" and any(p[0] == "HUnset" for p in c["ops"][:j]))},
         "oracle_instances_checked": "lattice laws on every random case group and on the exhaustive sub-lattice",
         "translator_ok": tr_ok,
         "trusted_extra": ["tools/gen_kind.py (ast translator; cross-checked against the imported module inside Coq)"],
